@@ -530,6 +530,11 @@ caf_read_header (SF_PRIVATE *psf)
 				else if (chunk_size > psf->filelength - psf->header.indx)
 				{	psf_log_printf (psf, "%M : %D (should be < %D)\n", marker, chunk_size, psf->filelength - psf->header.indx) ;
 					return SFE_MALFORMED_FILE ;
+					}
+				else if (chunk_size > 100 * 1024)
+				{	/* The strings are read through the header buffer which never grows beyond this, and on a pipe the file length above is unknown. */
+					psf_log_printf (psf, "%M : %D (too big)\n", marker, chunk_size) ;
+					return SFE_MALFORMED_FILE ;
 					} ;
 				psf_log_printf (psf, "%M : %D\n", marker, chunk_size) ;
 				if (chunk_size > 4)
